@@ -46,7 +46,7 @@ void run(Src &src, Case &c)
     const size_t nMeta = 1 + src.below(3);
     std::vector<MetaPlan> metaPlan(nMeta);
     for (auto &p : metaPlan) {
-        p.mask = 1 + static_cast<unsigned>(src.below(255));
+        p.mask = 1 + static_cast<unsigned>(src.below(511));
         p.scheme = static_cast<unsigned>(src.below(5));
     }
     const size_t nVariants = src.below(3);
@@ -56,6 +56,9 @@ void run(Src &src, Case &c)
         variantKinds[i] = static_cast<int>(src.below(V_COUNT));
         variantShuffle[i] = static_cast<unsigned>(src.below(32));
     }
+
+    const unsigned shapeDraw = static_cast<unsigned>(src.below(12)); // 1..5: an explorer shape is added to the base model
+    const bool baseComments = src.below(4) == 1;
 
     GtOptions opt;
     opt.smallExprs = true;
@@ -68,8 +71,14 @@ void run(Src &src, Case &c)
     }
     bool moved = extMove && moveInitialValues(base, src);
     bool readers = extReaders && addNlaReaders(base, src);
+    if (shapeDraw >= 1 && shapeDraw < static_cast<unsigned>(S_COUNT)) {
+        addShape(base, static_cast<int>(shapeDraw), src);
+    }
     if (baseNaming != 0) {
         applyTransform(base, T_RENAME_VARIABLES, src, baseNaming);
+    }
+    if (baseComments) {
+        base.commentSeed = 1 + static_cast<unsigned>(src.below(1000));
     }
     rebuildMath(base);
     c.text = specToText(base.spec) + "\n" + base.describe();
@@ -126,6 +135,8 @@ void run(Src &src, Case &c)
     if (nameCollision) c.cls("names:collision-across-components");
     if (primaryNameReused) c.cls("names:primary-name-reused-in-computing-component");
     c.cls("base-naming:" + std::to_string(baseNaming));
+    if (!base.shape.empty()) c.cls("shape:" + base.shape);
+    if (base.commentSeed != 0) c.cls("comments-in-math");
     c.count("equations", static_cast<long>(base.equationCount()));
 
     // ---- (a) + (b) on the base model
@@ -149,7 +160,7 @@ void run(Src &src, Case &c)
                 s = "C05.name-dependent|" + stripId(s);
             }
         }
-        report(c, s, ob.msg + "\n--- analyser model\n" + ob.dump());
+        report(c, s + (base.shape.empty() ? "" : "|shape:" + base.shape), ob.msg + "\n--- analyser model\n" + ob.dump());
         if (!ob.rolesOk && ob.valid) {
             return;
         }
@@ -168,7 +179,7 @@ void run(Src &src, Case &c)
             sig = "C05.name-dependent|" + stripId(sig);
             msg += "\n(the same model with every class of connected variables given one name throughout does not show this)";
         }
-        report(c, sig, msg + "\n--- with one name per class: type " + ou.type + "\n" + ou.issues + "--- analyser model\n" + ob.dump());
+        report(c, sig + (base.shape.empty() ? "" : "|shape:" + base.shape), msg + "\n--- with one name per class: type " + ou.type + "\n" + ou.issues + "--- analyser model\n" + ob.dump());
         return;
     }
 
